@@ -34,6 +34,45 @@ MAX_VIOL_PER_KEY = 3
 MAX_SAMPLES = 12
 
 
+# -- process-level settings an application may have changed before it calls the library (part of the environment) ---------------
+#   * warnings attributed to dpapi_ng are ALWAYS errors (python -W error / PYTHONWARNINGS=error / pytest filterwarnings=error):
+#     under the default filters a warning has no effect, so running with the strict filter loses nothing
+#   * DEBUG logging of the dpapi_ng loggers is switched on for every second shard (a function of the shard, recorded in each violation
+#     and re-applied by --replay), so both the logging and the non-logging paths of the library are explored
+AMBIENT: t.Dict[str, t.Any] = {"debuglog": False}
+
+
+class _SinkHandler:
+    level = 0
+
+    def handle(self, record):  # noqa: ANN001
+        try:
+            record.getMessage()  # format the message the way a real handler would
+        except Exception:  # noqa: BLE001
+            raise
+        return True
+
+
+def apply_ambient(debuglog: bool) -> None:
+    import logging
+    import warnings
+
+    warnings.filterwarnings("error", module=r"dpapi_ng(\.|$)")
+    AMBIENT["debuglog"] = bool(debuglog)
+    lg = logging.getLogger("dpapi_ng")
+    if not any(isinstance(h, logging.Handler) and getattr(h, "_verif", False) for h in lg.handlers):
+        h = logging.Handler()
+        h._verif = True  # type: ignore[attr-defined]
+        h.emit = lambda record: record.getMessage()  # type: ignore[method-assign]
+        lg.addHandler(h)
+        lg.propagate = False
+    lg.setLevel(logging.DEBUG if debuglog else logging.WARNING)
+
+
+def shard_ambient(shard: t.Any) -> bool:
+    return int(hashlib.sha256(repr(shard).encode()).hexdigest(), 16) % 2 == 1
+
+
 class HarnessError(Exception):
     """The machinery itself is broken (calibration failure, replay divergence...)."""
 
@@ -118,7 +157,7 @@ class Acc:
         """key groups violations of one kind; the smallest cases per key are kept."""
         self.violation_count += 1
         lst = self.violations.setdefault(key, [])
-        entry = {"key": key, "case": case, "detail": jsonable(detail), "size": size if size is not None else len(repr(case))}
+        entry = {"key": key, "case": case, "detail": jsonable(detail), "size": size if size is not None else len(repr(case)), "ambient": dict(AMBIENT)}
         lst.append(entry)
         lst.sort(key=lambda e: e["size"])
         del lst[MAX_VIOL_PER_KEY:]
@@ -188,6 +227,7 @@ def _worker_run(args: t.Tuple[t.Any, str, int]) -> t.Tuple[t.Optional[Acc], t.Op
     from mc import budget as _budget
 
     _budget.S.poisoned = False
+    apply_ambient(shard_ambient(shard))
     try:
         _worker_mod.run_shard(shard, tier, seed, acc)  # type: ignore[union-attr]
         return acc, None
@@ -314,7 +354,9 @@ def main(argv: t.Optional[t.List[str]] = None) -> int:
         init = getattr(mod, "worker_init", None)
         if init:
             init()
+        apply_ambient(bool((rec.get("ambient") or {}).get("debuglog")))
         if rec["case"] and rec["case"][0] == "shard":
+            apply_ambient(shard_ambient(rec["case"][1]))
             try:
                 mod.run_shard(rec["case"][1], rec["case"][2], rec.get("seed", seed), acc)
             except BaseException as e:  # noqa: BLE001
